@@ -317,6 +317,15 @@ func (r *Run) Finish(level string) int {
 	if r.Native != nil {
 		r.Native.Close()
 	}
+	if os.Getenv("VERIF_EMIT_KNOWN") != "" {
+		for _, v := range r.violations {
+			what := strings.ReplaceAll(v.What, "\n", "\\n")
+			if len(what) > 300 {
+				what = what[:300] + "..."
+			}
+			fmt.Printf("known: property=%s class=%s %s\n", r.ID, v.Class, what)
+		}
+	}
 	for i, v := range r.violations {
 		fmt.Printf("VIOLATION property=%s replay=%s\n", r.ID, v.Replay)
 		if i < 15 {
